@@ -1104,8 +1104,11 @@ where
                 costs[i] = high_cmplt;
                 done[i] = true;
             } else if let Some(hs_noncmplt) = hs_noncmplt {
-                debug_assert!(hs_noncmplt >= costs[i]);
-                costs[i] = hs_noncmplt;
+                // The best lower bound we have so far is the highest cost of any production,
+                // complete or not.
+                let high = hs_cmplt.map_or(hs_noncmplt, |x| std::cmp::max(x, hs_noncmplt));
+                debug_assert!(high >= costs[i]);
+                costs[i] = high;
             }
         }
         if all_done {
